@@ -431,11 +431,12 @@ def window_session(seed):
     s.note("peers 1 2")
     s.op("send 1 1 9 0 1 8 %d" % s.next_pseed())
     s.op("send 2 1 9 0 1 8 %d" % s.next_pseed())
-    burst = rng.choice([20, 40, 70, 100, 130, 200, 250, 254, 300])
-    respect = rng.random() < 0.7
+    burst = rng.choice([20, 40, 70, 100, 130, 200, 250, 254, 258, 300, 330])
+    respect = rng.random() < 0.7 and burst <= 254
     if burst > 240:
         s.note("window-exceeded")
-    p_back = rng.choice([0.0, 0.05, 0.15, 0.4])
+    p_back = rng.choice([0.0, 0.05, 0.15, 0.4]) if burst <= 254 else 0.0      # beyond the window: more than 256 verdicts arrive at once
+    silent = burst > 254 and rng.random() < 0.6      # the peer emits nothing during the burst: its first header afterwards covers it all
     for i in range(burst):
         if respect:
             s.op("wb 1 1")
@@ -447,7 +448,7 @@ def window_session(seed):
             s.op("dln 2 1")
         else:
             s.op("drop 1")
-        r = rng.random()
+        r = rng.random() if not silent else 1.0
         if r < 0.15:
             s.op("flush 2")  # emitted, but possibly withheld from endpoint 1 until later
         elif r < 0.3:
@@ -1164,4 +1165,122 @@ def hs_migrate_session(seed):
     s.op("closed 1")
     s.op("closed 2")
     s.op("nodes")
+    return s.ops
+
+
+# ---------------------------------------------------------------------------------------------------------------------------------
+# forged packet bodies: a Python copy of the bunch wire format, able to write out-of-range values, used to inject arbitrary bunch
+# encodings into a *genuine* packet (valid packet header and sequence) through WriteBitsToSendBuffer
+
+def _bits_int(v, mx):
+    """bitbuf_write_int / write_int_wrapped: shortened encoding of v below mx (v taken as is, also when out of range)"""
+    out, nv, mask = [], 0, 1
+    while nv + mask < mx and mask < (1 << 32):
+        if v & mask:
+            out.append(1)
+            nv += mask
+        else:
+            out.append(0)
+        mask *= 2
+    return out
+
+
+def _bits_packed(v):
+    out = []
+    v &= 0xFFFFFFFF
+    for _ in range(5):
+        more = 1 if (v >> 7) else 0
+        byte = ((v & 127) << 1) | more
+        out += [(byte >> i) & 1 for i in range(8)]
+        v >>= 7
+        if not more:
+            break
+    return out
+
+
+def enc_bunch(ch, flags, reason, name, chseq, nbits_field, data_bits):
+    """flags as in the scenario language; nbits_field is what the length field says (it may lie)"""
+    o, c = bool(flags & 1), bool(flags & 2)
+    bits = [1 if (o or c) else 0]
+    if o or c:
+        bits += [int(o), int(c)]
+        if c:
+            bits += _bits_int(reason, 15)
+    bits += [int(bool(flags & 4)), int(bool(flags & 8))]
+    bits += _bits_packed(ch)
+    bits += [int(bool(flags & 16)), int(bool(flags & 32)), int(bool(flags & 64))]
+    if flags & 8:
+        bits += _bits_int(chseq % 1024, 1024)
+    if flags & 64:
+        bits += [int(bool(flags & 128)), int(bool(flags & 256))]
+    if flags & 9:
+        bits += [1 if not (flags & 512) else 0] + _bits_packed(name)     # flag 512: clear the "hardcoded name" bit (refused by the reader)
+    bits += _bits_int(nbits_field % 8192, 8192)
+    return bits + list(data_bits)
+
+
+def _hexbits(bits):
+    by = bytearray((len(bits) + 7) // 8)
+    for i, b in enumerate(bits):
+        if b:
+            by[i >> 3] |= 1 << (i & 7)
+    return by.hex() or "00"
+
+
+def inject_session(seed):
+    """C09 / C11: genuine packets (valid header, valid sequence, delivered in order) whose *body* is forged: bunch encodings with
+    out-of-range channel indices, lying length fields, unrepresentable close reasons, cleared name bits, truncated tails, random bits"""
+    rng = random.Random(seed)
+    s = Session(rng)
+    s.op("reset")
+    magic = rng.choice([(0, 0), (0, 0), (8, 0xA5), (32, 0xDEADBEEF)])
+    if magic[0]:
+        s.op("cfg magic %d %d" % magic)
+    s.op("conn 1")
+    s.op("conn 2")
+    a_out, b_out = seq_choice(rng), seq_choice(rng)
+    s.op("seqinit 1 %d %d" % (b_out, a_out))
+    s.op("seqinit 2 %d %d" % (a_out, b_out))
+    s.note("peers 1 2")
+    s.note("hostile")
+    s.op("send 1 1 9 0 1 8 %d" % s.next_pseed())
+    s.op("send 1 3 9 0 1 8 %d" % s.next_pseed())
+    drain(s, 1, 2, rounds=1)
+    relseq = {1: 1, 3: 1}
+    for _ in range(rng.randint(4, 14)):
+        for _ in range(rng.randint(1, 4)):
+            kind = rng.random()
+            n = rng.choice([0, 1, 7, 8, 9, 64, 300])
+            data = [rng.getrandbits(1) for _ in range(n)]
+            ch = rng.choice([1, 3, 1, 3, 0, 5, 127, 128, 16383, 16384, 32766, 32767, 32768, 65535, 1 << 20, (1 << 32) - 1])
+            flags = rng.choice([0, 8, 8, 9, 1, 2, 10, 11, 72, 200, 328, 456, 64, 192, 320, 448, 16, 32, 4, 520, 521]) | (rng.choice([0, 0, 0, 4, 16, 32]))
+            reason = rng.choice([0, 1, 7, 14, 15])
+            name = rng.choice([0, 1, 127, 128, 1 << 31, (1 << 32) - 1])
+            if kind < 0.55:
+                chseq = relseq.get(ch, 1) + rng.choice([0, 0, 0, 1, 2, 5, -1, 511, 512, 513, 1023])
+                if rng.random() < 0.6 and ch in relseq and flags & 8:
+                    relseq[ch] = chseq + 1
+                bits = enc_bunch(ch, flags, reason, name, chseq, n, data)
+            elif kind < 0.8:
+                # the length field lies
+                bits = enc_bunch(ch, flags, reason, name, relseq.get(ch, 1), rng.choice([n + 1, n + 8, 8191, 8000, max(0, n - 1), 0]), data)
+            elif kind < 0.9:
+                bits = enc_bunch(ch, flags, reason, name, relseq.get(ch, 1), n, data)
+                bits = bits[:rng.randint(0, len(bits))]        # truncated inside the header or the payload
+            else:
+                bits = [rng.getrandbits(1) for _ in range(rng.choice([1, 2, 5, 8, 13, 40, 100, 1000]))]
+            s.op("inject 1 %d %s" % (len(bits), _hexbits(bits)))
+            if rng.random() < 0.3:
+                s.op("send 1 %d 8 0 0 %d %d" % (rng.choice([1, 3]), payload_bits(rng, small=True), s.next_pseed()))
+        s.op("tick 250000000")
+        s.op("flush 1")
+        s.op("dla 2 1")
+        if rng.random() < 0.5:
+            s.op("update 2")
+        s.op("flush 2")
+        s.op("dla 1 2")
+    s.op("closed 1")
+    s.op("closed 2")
+    s.op("nodes")
+    s.op("chans 2")
     return s.ops
